@@ -2087,9 +2087,131 @@ pub fn part(ctx: &Ctx, part: &str, seed: u64, cases: u32) -> Option<(Value, Fail
 
 const CONC_REPEATS: usize = 3;
 
+/// Large key spaces (an iteration spans several of the store's internal pages of 10 000 keys) whose keys EXTEND
+/// each other: around the `align`-th key in byte order every key is followed by up to three keys that have it as a
+/// proper prefix (k, k·00, k·00·00, k·ff), the rest are 4-byte counters. The keys are written by one batch with two
+/// child batches (one committed, one dropped); the batch's own iteration before the commit, the store's iteration
+/// after it and a held iterator across a later commit must each list exactly the model's keys in byte order.
+#[derive(Clone, Debug, Serialize, Deserialize)]
+pub struct BigKeys {
+	pub n: u32,
+	pub align: u32,
+	pub db: u8,
+}
+
+pub fn check_bigkeys(ctx: &Ctx, c: &BigKeys, counting: bool) -> PResult {
+	let dir = ctx.scratch_dir("c18k");
+	let store = open_store(&dir).map_err(|e| dberr("bigkeys", "open", e))?;
+	let db = dbk(c.db as usize % NDB);
+	let mut keys: Vec<Vec<u8>> = (0..c.n).map(|i| i.to_be_bytes().to_vec()).collect();
+	// chains of extensions in a window around the aligned position (and around twice that position)
+	for base in [c.align, c.align.saturating_mul(2)] {
+		for i in base.saturating_sub(12)..base.saturating_add(12).min(c.n) {
+			let k = i.to_be_bytes().to_vec();
+			for ext in [&[0u8][..], &[0u8, 0][..], &[0xffu8][..]] {
+				let mut e = k.clone();
+				e.extend_from_slice(ext);
+				keys.push(e);
+			}
+		}
+	}
+	keys.sort();
+	keys.dedup();
+	let val = |k: &[u8]| -> Vec<u8> { vec![k.len() as u8, *k.last().unwrap_or(&0)] };
+	let listing = |got: &[KV], want: &[Vec<u8>], what: &str| -> PResult {
+		let gk: Vec<&Vec<u8>> = got.iter().map(|(k, _)| k).collect();
+		if gk.len() != want.len() || gk.iter().zip(want.iter()).any(|(a, b)| *a != b) {
+			let first = gk.iter().zip(want.iter()).position(|(a, b)| *a != b).unwrap_or(gk.len().min(want.len()));
+			return Err(Fail::new(
+				"bigkeys:iteration-differs",
+				format!("{}: {} keys listed, {} expected; first difference at index {} (expected {}, got {})", what, gk.len(), want.len(), first, want.get(first).map(|k| hx(k)).unwrap_or_default(), gk.get(first).map(|k| hx(k)).unwrap_or_default()),
+			));
+		}
+		for (k, v) in got {
+			ensure!(*v == val(k), "bigkeys:value", "{}: value of {} is {}", what, hx(k), hx(v));
+		}
+		Ok(())
+	};
+	// one batch, two children: the first third directly, the second third through a committed child, the
+	// last third through the outer batch again; a dropped child writes keys that must never show
+	let third = keys.len() / 3;
+	{
+		let mut b = store.batch().map_err(|e| dberr("bigkeys", "Store::batch", e))?;
+		for k in &keys[..third] {
+			b.put(db, k, &val(k)).map_err(|e| dberr("bigkeys", "put", e))?;
+		}
+		{
+			let mut ch = b.child().map_err(|e| dberr("bigkeys", "child", e))?;
+			for k in &keys[third..2 * third] {
+				ch.put(db, k, &val(k)).map_err(|e| dberr("bigkeys", "put", e))?;
+			}
+			ch.commit().map_err(|e| dberr("bigkeys", "child commit", e))?;
+		}
+		{
+			let mut ch = b.child().map_err(|e| dberr("bigkeys", "child", e))?;
+			for i in 0..50u32 {
+				let mut k = (c.align + i).to_be_bytes().to_vec();
+				k.push(0x7f);
+				ch.put(db, &k, &[9]).map_err(|e| dberr("bigkeys", "put", e))?;
+			}
+			drop(ch);
+		}
+		for k in &keys[2 * third..] {
+			b.put(db, k, &val(k)).map_err(|e| dberr("bigkeys", "put", e))?;
+		}
+		let inside: Vec<KV> = b.iter(db, kv_copy as IterFn).map_err(|e| dberr("bigkeys", "Batch::iter", e))?.collect::<Result<Vec<KV>, DbError>>().map_err(|e| dberr("bigkeys", "Batch::iter item", e))?;
+		listing(&inside, &keys, "Batch::iter before the commit")?;
+		b.commit().map_err(|e| dberr("bigkeys", "commit", e))?;
+	}
+	let outside: Vec<KV> = store.iter(db, kv_copy as IterFn).map_err(|e| dberr("bigkeys", "Store::iter", e))?.collect::<Result<Vec<KV>, DbError>>().map_err(|e| dberr("bigkeys", "Store::iter item", e))?;
+	listing(&outside, &keys, "Store::iter after the commit")?;
+	// a held iterator across a commit that deletes every second key: still the old listing
+	let mut held = store.iter(db, kv_copy as IterFn).map_err(|e| dberr("bigkeys", "Store::iter", e))?;
+	let mut got: Vec<KV> = vec![];
+	for _ in 0..(c.align as usize / 2) {
+		match held.next() {
+			Some(x) => got.push(x.map_err(|e| dberr("bigkeys", "Store::iter item", e))?),
+			None => break,
+		}
+	}
+	{
+		let mut b = store.batch().map_err(|e| dberr("bigkeys", "Store::batch", e))?;
+		for k in keys.iter().step_by(2) {
+			b.delete(db, k).map_err(|e| dberr("bigkeys", "delete", e))?;
+		}
+		b.commit().map_err(|e| dberr("bigkeys", "commit", e))?;
+	}
+	for x in held {
+		got.push(x.map_err(|e| dberr("bigkeys", "Store::iter item", e))?);
+	}
+	listing(&got, &keys, "an iterator opened before, and read across, a commit deleting every second key")?;
+	let rest: Vec<Vec<u8>> = keys.iter().skip(1).step_by(2).cloned().collect();
+	let after: Vec<KV> = store.iter(db, kv_copy as IterFn).map_err(|e| dberr("bigkeys", "Store::iter", e))?.collect::<Result<Vec<KV>, DbError>>().map_err(|e| dberr("bigkeys", "Store::iter item", e))?;
+	listing(&after, &rest, "Store::iter after the deleting commit")?;
+	if counting {
+		ctx.ev.eval();
+		ctx.ev.class("bigkeys:cases");
+		ctx.ev.nontrivial(&("bigkeys", c.n / 5000, c.align, c.db));
+	}
+	drop(store);
+	let _ = std::fs::remove_dir_all(&dir);
+	Ok(())
+}
+
 pub fn run(ctx: &Ctx) -> HResult<()> {
 	init_global();
 	let ev = &ctx.ev;
+	ev.rule("bigkeys: key spaces of 12 000 - 31 000 keys (several internal iteration pages) in which the keys around the page boundaries extend each other (k, k.00, k.00.00, k.ff); written by one batch with a committed and a dropped child; Batch::iter before the commit, Store::iter after it, an iterator held across a deleting commit and the iteration after that must list exactly the model's keys in byte order");
+	for (n, align, db) in [(12_000u32, 9_991u32, 0u8), (12_000, 9_999, 1), (12_000, 10_000, 2), (23_000, 9_990, 3), (31_000, 10_003, 1), (12_500, 10_011, 0)] {
+		let c = BigKeys { n, align, db };
+		if let Ok(Err(f)) | Err(f) = catch(|| check_bigkeys(ctx, &c, true)) {
+			if f.sig.starts_with("harness:") {
+				return Err(HarnessError(format!("bigkeys: {}: {}", f.sig, f.msg)));
+			}
+			ctx.report("bigkeys", &f.sig, serde_json::to_value(&c).unwrap(), &f.msg);
+			break;
+		}
+	}
 	ev.rule("seq: proptest sequences (6..60/90 ops) over one Store with the default db + 3 prefix dbs, 8 keys per db, values 1 B..64 KiB: open batch / child (up to 3 nested child levels), put, put_ser, delete, get_ser, exists, iter at the innermost level, commit / drop of the innermost level, reads through the Store on the same thread while a batch is open, an iterator held open across later ops, reopen; every read and a full iteration of all dbs after every structural step is compared with a nested-transaction map model. Non-trivial = a child batch with writes was committed and its parent dropped, or a child was committed after a sibling with writes was dropped, or a parent committed after a child with writes was dropped; distinct by the structural skeleton of the sequence");
 	ev.rule("conc: seed-derived plans (1-4 writers, 1-4 readers of kinds iter / get / batch-as-reader, one iterator holder, key groups spread over the 4 dbs, batches of 10-100 KiB), each run 3 times in its own process until the LMDB map was enlarged 2-3 times during the concurrent phase; thread schedules are SAMPLED, not controlled. Non-trivial = a resize in the concurrent phase with reader snapshots completed before and after it; distinct by plan shape");
 	ev.rule("crash: generated scenarios (base content + one batch with committed / dropped children and grandchildren); EVERY crash point of the batch (lmdb.commit:before|after[:child]) is enumerated: a process aborts at point n, a second process reopens and dumps all dbs. Non-trivial = scenario whose batch changes the content; distinct by (label, ordinal, children)");
@@ -2171,6 +2293,7 @@ pub fn replay(ctx: &Ctx, part: &str, case: &Value) -> PResult {
 		"seq" => check_seq(ctx, &serde_json::from_value(case.clone()).map_err(bad)?, false),
 		"conc" => check_conc(ctx, &serde_json::from_value(case.clone()).map_err(bad)?, 5, false),
 		"crash" => check_crash(ctx, &serde_json::from_value(case.clone()).map_err(bad)?, false),
+		"bigkeys" => check_bigkeys(ctx, &serde_json::from_value(case.clone()).map_err(bad)?, false),
 		_ => Ok(()),
 	}
 }
